@@ -392,6 +392,9 @@ Section Prefix.
     (* the private buffer of a subexpression: both runs start it empty *)
     Hypothesis IH0 : forall hid h t1 t2, peq [] 0 pl pt t1 t2 -> Qx t1 -> hid <> HState -> ni_hv h ->
       simg [] 0 T (call_helper reg data ft f hid h t1) (call_helper reg data ft f hid h t2).
+    (* the private buffer of a captured block body (Renderable::renders): likewise *)
+    Hypothesis IH0t : forall t t1 t2, peq [] 0 pl pt t1 t2 -> Qx t1 -> no_indent t ->
+      simg [] 0 T (render_template reg data ft f t t1) (render_template reg data ft f t t2).
 
     Ltac qs' := first [ assumption | qs ].
     Ltac intro_k := intros ? ? ? (? & ? & ? & ->) ? ?; fl_cbn.
@@ -643,6 +646,33 @@ Section Prefix.
                 | feq_tac | qs' ]
             end.
         + (* HLocal *)
+          destruct (starts_with (`"c:") name).
+          { (* the capture bracket: both runs start the private buffer empty *)
+            destruct (hv_tpl h) as [t|] eqn:Et; [|go2].
+            cbn [opt_ni] in Hv1.
+            match goal with
+            | |- simg _ _ _ (match ?X with _ => _ end) (match ?Y with _ => _ end) =>
+                assert (Hp : simg [] 0 T X Y);
+                [ apply IH0t; [feq_tac| |exact Hv1];
+                  destruct Hq; constructor; try assumption; reflexivity
+                | destruct X as [u3 s3|e3 s3|p3|]; destruct Y as [u3' s3'|e3' s3'|p3'|];
+                  cbn [simg] in Hp; try contradiction ]
+            end.
+            - destruct Hp as (_ & (a3 & b3 & c3 & ->) & Hq3 & _).
+              replace (out_text (s_out (pre [] 0 pl pt s3 a3 b3 c3))) with (out_text (s_out s3))
+                by (unfold out_text; cbn [pre s_out o_chunks]; rewrite app_nil_r; reflexivity).
+              assert (HQ : Qs (set_out s3 (s_out (log_entry t1
+                             (`"local(" ++ name ++ `":" ++ params_text (hv_params h) ++ `")"))))).
+              { destruct Hq3, Hq. constructor; try assumption. }
+              match goal with
+              | |- simg _ _ _ (rbind (out_write _ ?A) _) (rbind (out_write _ ?B) _) =>
+                  change B with (fl A a3 b3 c3)
+              end.
+              go2.
+            - destruct Hp as (<- & (a3 & b3 & c3 & ->)). apply sim_err.
+              exists a3, b3, c3. reflexivity.
+            - subst. reflexivity.
+            - exact I. }
           destruct (starts_with (`"e:") name); [|go2].
           match goal with
           | |- context [log_entry (fl t1 a b c) ?x] =>
@@ -708,8 +738,9 @@ Theorem prefix_all reg data ft :
 Proof.
   intros Ht Hh pl pt. induction f as [|f IHf]; intros po wo.
   - apply flags_0.
-  - apply flags_step; [exact Ht|exact Hh|apply IHf|].
-    intros hid h t1 t2 Hf Hq Hn Hv. apply (fi_call_helper _ _ _ _ _ _ _ _ (IHf [] 0)); assumption.
+  - apply flags_step; [exact Ht|exact Hh|apply IHf| |].
+    + intros hid h t1 t2 Hf Hq Hn Hv. apply (fi_call_helper _ _ _ _ _ _ _ _ (IHf [] 0)); assumption.
+    + intros t t1 t2 Hf Hq Hn. apply (fi_render_template _ _ _ _ _ _ _ _ (IHf [] 0)); assumption.
 Qed.
 
 (* ================= Part 2: concatenation ================= *)
